@@ -17,9 +17,13 @@ for cfg in runner.THOROUGH:
         res = fn(prog, {"tier": "quick"}) if getattr(fn, "wants_opts", False) else fn(prog)
         n = res.instances
         meas.setdefault(rid, {})[cfg] = n
+        if res.discharged and rid not in ZERO_OK:
+            # a rule that leaves much more undecided than on the pinned tree has lost its grip (tool error)
+            out.setdefault("_discharged", {}).setdefault(rid, {})[cfg] = int(res.discharged * 0.6)
         if rid in ZERO_OK or n == 0:
             continue
         out.setdefault(rid, {})[cfg] = max(1, int(n * 0.6))
+out["_pinned"] = runner.src_digest("/repo")
 with open(os.path.join(os.path.dirname(os.path.abspath(__file__)), "expect.json"), "w") as fh:
     json.dump(out, fh, indent=1, sort_keys=True)
 for rid in sorted(meas):
